@@ -258,6 +258,18 @@ func fsSignature(l M) string {
 	return ""
 }
 
+// looseSig drops the error number from a fault signature: a fault that landed on another call than the intended one
+// may carry an error number that the enumeration does not use for that kind of call, and which error a call fails
+// with rarely matters for what the command does about it.
+func looseSig(sig string) string {
+	if strings.HasPrefix(sig, "fault|") {
+		if i := strings.LastIndex(sig, "/"); i > 0 {
+			return sig[:i]
+		}
+	}
+	return sig
+}
+
 func (v *Violation) replayFileFS() *ReplayFile {
 	rf := &ReplayFile{Property: v.Prop, Clause: v.Clause, TZ0: v.Trace.TZ0, Obs: roObs, Contents: map[string]string{}, Kind: "fs"}
 	fe := v.Trace.Events[v.EvIdx]
@@ -358,7 +370,7 @@ func reexecFS(goit string, rf *ReplayFile, dir string) (bool, error) {
 		return false, jr.Err
 	}
 	for _, f := range jr.Fails {
-		if f.Clause == rf.Clause && fsSignature(c.Lines[f.Line-1]) == rf.Extra["signature"] {
+		if f.Clause == rf.Clause && looseSig(fsSignature(c.Lines[f.Line-1])) == looseSig(fmt.Sprint(rf.Extra["signature"])) {
 			return true, nil
 		}
 	}
@@ -583,6 +595,10 @@ func (cx *CheckCtx) finish(level string, rule string, assumptions []string) int 
 				}
 				if !again {
 					unrepro++
+					if d := os.Getenv("VERIF_KEEP_UNREPRO"); d != "" {
+						b, _ := json.MarshalIndent(rf, "", " ")
+						os.WriteFile(filepath.Join(d, fmt.Sprintf("unrepro_%s_%d.json", sanitize(k), try)), b, 0o666)
+					}
 					cmu.Unlock()
 					continue
 				}
